@@ -35,10 +35,12 @@ class FakeEvent(object):
 
 
 FAIL = 'F'
+SPEC = 'S'     # the speculative-execution timer of this page fetch fires the moment it is armed
+MARKS = (FAIL, SPEC)
 
 
 def script_pages(script):
-    return [x for x in script if x != FAIL]
+    return [x for x in script if x not in MARKS]
 
 
 def expected_requests(script):
@@ -46,7 +48,7 @@ def expected_requests(script):
     out, cur, k = [], None, 0
     for item in script:
         out.append(cur)
-        if item != FAIL:
+        if item not in MARKS:
             cur = k
             k += 1
     return out
@@ -58,7 +60,10 @@ class Server(object):
     state b'S<k>'.  The server answers by the paging state CARRIED by the request (like a real coordinator): the n-th
     request carrying state c gets the n-th item scripted after the page that returned c."""
 
-    def __init__(self, script, eager, state_of=None):
+    def __init__(self, script, eager, state_of=None, mode=None):
+        self.mode = mode or {}
+        self.rf = None
+        self.revise = []        # DSE_V2 continuous paging back-pressure messages
         self.script = script
         self.pages = script_pages(script)
         self.eager = eager
@@ -69,11 +74,23 @@ class Server(object):
         self.groups = {}        # carried-state key (None | page index) -> items answering successive requests
         key, k = None, 0
         for item in script:
-            self.groups.setdefault(key, []).append(item if item == FAIL else k)
-            if item != FAIL:
+            self.groups.setdefault(key, []).append(item if item in MARKS else k)
+            if item not in MARKS:
                 key = k
                 k += 1
         self.seen = {}
+
+    def spec_due(self):
+        """called when a speculative-execution timer is armed: does the script let it fire at once?"""
+        if self.rf is None or self.rf._event.is_set():
+            return False              # no page fetch without an outcome: a timer armed now has nothing to speculate on
+        key = self.key_for(self.rf._paging_state)
+        group = self.groups.get(key) or []
+        n = self.seen.get(key, 0)
+        if n < len(group) and group[n] == SPEC:
+            self.seen[key] = n + 1
+            return True
+        return False
 
     def state_bytes(self, k):
         return self.state_of(k) if k < len(self.pages) - 1 else None
@@ -99,6 +116,8 @@ class Server(object):
             m.paging_state = None
             return m
         n = self.seen.get(key, 0)
+        while n < len(group) - 1 and group[n] == SPEC:
+            n += 1                    # a timer that was never armed / never fired
         self.seen[key] = n + 1
         item = group[min(n, len(group) - 1)]
         if item == FAIL:
@@ -106,10 +125,25 @@ class Server(object):
                                            {'consistency': 1, 'required_responses': 2, 'received_responses': 1, 'data_retrieved': False})
         m.parsed_rows = [(r,) for r in self.pages[item]]
         m.paging_state = self.state_bytes(item)
+        if self.mode.get('cont'):
+            m.stream_id = 7
+            m.continuous_paging_seq = item + 1
+            m.continuous_paging_last = item == len(self.pages) - 1
+            m.pushed_from = item + 1          # the server goes on pushing the pages after this one
         return m
 
-    def on_send(self, message, cb):
-        carried = message.paging_state
+    def page_msg(self, k):
+        from cassandra.protocol import ResultMessage, RESULT_KIND_ROWS
+        m = ResultMessage(RESULT_KIND_ROWS)
+        m.column_names, m.column_types = ['v'], [None]
+        m.parsed_rows = [(r,) for r in self.pages[k]]
+        m.paging_state = self.state_bytes(k)
+        m.stream_id, m.continuous_paging_seq, m.continuous_paging_last = 7, k + 1, k == len(self.pages) - 1
+        return m
+
+    def on_send(self, message, cb, carried='msg'):
+        if carried == 'msg':
+            carried = message.paging_state
         self.sent.append(carried)
         if len(self.sent) > 3 * len(self.script) + 6:
             # a driver that keeps asking (e.g. for the same page) must not hang the check: refuse; the request then
@@ -123,17 +157,53 @@ class Server(object):
         if not self.pending:
             return False
         cb, carried = self.pending.pop(0)
-        cb(self.response(carried))
+        resp = self.response(carried)
+        cb(resp)
+        k = getattr(resp, 'pushed_from', None)
+        if k is not None and self.rf is not None and self.rf._continuous_paging_session is not None:
+            for j in range(k, len(self.pages)):       # continuous paging: the remaining pages arrive unasked
+                self.rf._continuous_paging_session.on_message(self.page_msg(j))
         return True
 
 
 class FakeConnection(object):
+    host = 'h1'
+
     def __init__(self, server):
+        import threading
         self.server = server
         self.next_id = 0
+        self.lock = threading.RLock()
+        self._continuous_paging_sessions = {}
+
+    def get_request_id(self):
+        self.next_id += 1
+        return self.next_id
+
+    def new_continuous_paging_session(self, stream_id, decoder, row_factory, state):
+        from cassandra.connection import ContinuousPagingSession
+        sess = ContinuousPagingSession(stream_id, decoder, row_factory, self, state)
+        self._continuous_paging_sessions[stream_id] = sess
+        return sess
 
     def send_msg(self, msg, request_id, cb, encoder=None, decoder=None, result_metadata=None):
-        self.server.on_send(msg, cb)
+        if type(msg).__name__ == 'ReviseRequestMessage':
+            self.server.revise.append((msg.op_type, msg.next_pages))
+            return 10
+        mode = self.server.mode
+        carried = 'msg'
+        if mode.get('wire'):
+            # what the request CARRIES is read from the body the driver's encoder produces (independent reader)
+            from vf import pgconc_options
+            try:
+                w = pgconc_options.wire_fields(msg, mode.get('pv', 4))
+                if 'error' in w:
+                    carried = b'garbled:' + w['error'].encode()
+                elif 'paging' in w:
+                    carried = None if w['paging'] is None else ('S%d' % w['paging']).encode()
+            except Exception as e:  # noqa
+                carried = b'garbled:' + type(e).__name__.encode()
+        self.server.on_send(msg, cb, carried)
         return 10
 
 
@@ -162,11 +232,24 @@ class FakeLBP(object):
         return list(self.hosts)
 
 
+class FakeTimer(object):
+    def cancel(self):
+        pass
+
+
 class FakeCluster(object):
-    def __init__(self, lbp):
+    def __init__(self, lbp, server=None):
         self._default_load_balancing_policy = lbp
-        self.connection_class = None
         self._prepared_statements = {}
+
+        class Reactor(object):
+            @staticmethod
+            def create_timer(delay, cb):
+                t = FakeTimer()
+                if server is not None and server.spec_due():
+                    cb()                 # the timer fires at once
+                return t
+        self.connection_class = Reactor
 
 
 class FakeSession(object):
@@ -177,25 +260,49 @@ class FakeSession(object):
         self.row_factory = tuple_factory
         self.host = 'h1'
         self.conn = FakeConnection(server)
-        self._pools = {self.host: FakePool(self.conn)}
-        self.cluster = FakeCluster(FakeLBP([self.host]))
+        hosts = ['h1', 'h2', 'h3', 'h4', 'h5'] if (getattr(server, 'mode', None) or {}).get('spec') else ['h1']
+        self._pools = dict((h, FakePool(self.conn)) for h in hosts)
+        self.cluster = FakeCluster(FakeLBP(hosts), server)
 
     def submit(self, fn, *a, **kw):
         fn(*a, **kw)
 
 
-def execute(pages, eager, state_of=None):
-    """session.execute(): a real ResponseFuture sends the first request; result() returns the real ResultSet."""
+def default_mode(script, state_of=None):
+    return {'spec': SPEC in script, 'wire': state_of is None, 'serial': False, 'pv': 4, 'cont': False}
+
+
+def execute(pages, eager, state_of=None, mode=None):
+    """session.execute(): a real ResponseFuture sends the first request; result() returns the real ResultSet.
+    mode: spec (speculative-execution plan + 5 hosts), wire (requests observed in the encoded body), serial (the
+    statement has a serial consistency level), pv (protocol version), cont (continuous paging, pv 65/66)."""
     from vf.impl import import_cluster
     cl = import_cluster()
     from cassandra.protocol import QueryMessage
     from cassandra.query import SimpleStatement
     from cassandra import ReadTimeout
-    server = Server(pages, eager, state_of)
+    mode = dict(default_mode(pages, state_of), **(mode or {}))
+    if mode['spec']:
+        # late: the answers of the executions of a page fetch arrive one by one while the caller waits, the losers
+        # after the next page fetch has started; otherwise every answer arrives at once
+        eager = not mode.get('late')
+    server = Server(pages, eager, state_of, mode)
     session = FakeSession(server)
     for _ in range(len(pages) + 1):
-        msg = QueryMessage('SELECT v FROM t', 1, fetch_size=2)
-        rf = cl.ResponseFuture(session, msg, SimpleStatement('SELECT v FROM t'), None)
+        cpo = cps = plan = None
+        if mode['cont']:
+            from cassandra.connection import ContinuousPagingState
+            cpo = cl.ContinuousPagingOptions()
+            cps = ContinuousPagingState(cpo.max_queue_size) if mode['pv'] >= 66 else None
+        query = SimpleStatement('SELECT v FROM t', is_idempotent=True)
+        if mode['spec']:
+            from cassandra.policies import ConstantSpeculativeExecutionPolicy
+            plan = ConstantSpeculativeExecutionPolicy(0, 1000).new_plan(None, query)
+        msg = QueryMessage('SELECT v FROM t', 1, serial_consistency_level=8 if mode['serial'] else None, fetch_size=2,
+                           continuous_paging_options=cpo)
+        server.rf = None
+        rf = cl.ResponseFuture(session, msg, query, None, speculative_execution_plan=plan, continuous_paging_state=cps)
+        server.rf = rf
         rf._event = FakeEvent(server)
         rf.send_request()
         try:
@@ -221,13 +328,24 @@ def val(row):
 
 
 def observe(rs, rf):
-    try:
-        cur = [val(r) for r in rs._current_rows]
-    except TypeError:
-        cur = None
+    import types
+    cr = rs._current_rows
+    is_gen = isinstance(cr, types.GeneratorType)      # continuous paging: the session's generator (cannot be peeked)
+    if is_gen:
+        cur = []
+    else:
+        try:
+            cur = [val(r) for r in cr]
+        except TypeError:
+            cur = None
     pi = rs._page_iter
-    rem = None if pi is None else [val(r) for r in copy.copy(pi)]
-    return (cur, rem, bool(rs._list_mode), state_id(rf._paging_state))
+    if pi is None:
+        rem = None
+    elif isinstance(pi, types.GeneratorType):
+        rem = []
+    else:
+        rem = [val(r) for r in copy.copy(pi)]
+    return (cur, rem, bool(rs._list_mode), state_id(rf._paging_state), is_gen)
 
 
 EXC = [(StopIteration, 'VStop'), (TypeError, 'VTypeError'), (RuntimeError, 'VRuntimeError'), (IndexError, 'VIndexError')]
@@ -280,9 +398,9 @@ def apply_op(rs, rf, op):
         return classify(e)
 
 
-def run_case(pages, ops, eager, state_of=None):
+def run_case(pages, ops, eager, state_of=None, mode=None):
     """-> dict(init=(reqs, obs), trace=[(reqs during op, ret, obs)], sent=[all carried states], bogus=[...])"""
-    server, rf, rs = execute(pages, eager, state_of)
+    server, rf, rs = execute(pages, eager, state_of, mode)
     init = ([state_id(x) for x in server.sent], observe(rs, rf))
     trace = []
     for op in ops:
@@ -290,7 +408,7 @@ def run_case(pages, ops, eager, state_of=None):
         ret = apply_op(rs, rf, op)
         trace.append(([state_id(x) for x in server.sent[n0:]], ret, observe(rs, rf)))
     return {'init': init, 'trace': trace, 'sent': [state_id(x) for x in server.sent], 'bogus': [state_id(x) for x in server.bogus],
-            'pending': len(server.pending)}
+            'pending': len(server.pending), 'revise': list(server.revise)}
 
 
 # ---------------------------------------------------------------- Gallina literals
@@ -317,6 +435,8 @@ def g_server(script):
     for item in reversed(script[:-1]):
         if item == FAIL:
             s = 'Fail (%s)' % s
+        elif item == SPEC:
+            s = 'Spec (%s)' % s
         else:
             s = 'More %s %d (%s)' % (zlist(item), k, s)
             k -= 1
@@ -349,9 +469,13 @@ def g_val(r):
     raise ValueError(r)
 
 
-def g_obs(o):
-    cur, rem, lm, st = o
-    return '(%s, %s, %s, %s)' % (zlist(cur if cur is not None else [-999]), olist(rem), 'true' if lm else 'false', oz(st))
+def g_obs(o, cont=False):
+    cur, rem, lm, st = o[:4]
+    is_gen = len(o) > 4 and o[4]
+    if is_gen and not cont:
+        cur = None                      # a generator where the paged model has a list
+    t = '(%s, %s, %s, %s)' % (zlist(cur if cur is not None else [-999]), olist(rem), 'true' if lm else 'false', oz(st))
+    return '(%s, %s)' % (t, 'true' if is_gen else 'false') if cont else t
 
 
 def g_outs(reqs, ret=None):
@@ -361,7 +485,7 @@ def g_outs(reqs, ret=None):
     return '[' + '; '.join(items) + ']'
 
 
-def g_case(pages, ops, res):
-    tr = '[' + '; '.join('(%s, %s)' % (g_outs(rq, ret), g_obs(ob)) for rq, ret, ob in res['trace']) + ']'
-    return 'check_case %s [%s] (%s, %s) %s' % (g_server(pages), '; '.join(g_op(o) for o in ops),
-                                              g_outs(res['init'][0]), g_obs(res['init'][1]), tr)
+def g_case(pages, ops, res, cont=False):
+    tr = '[' + '; '.join('(%s, %s)' % (g_outs(rq, ret), g_obs(ob, cont)) for rq, ret, ob in res['trace']) + ']'
+    return '%s %s [%s] (%s, %s) %s' % ('check_case_cont' if cont else 'check_case', g_server(pages), '; '.join(g_op(o) for o in ops),
+                                       g_outs(res['init'][0]), g_obs(res['init'][1], cont), tr)
